@@ -906,6 +906,11 @@ class C20:
             if self.lied:
                 # providers with different views were composed; only element-wise fidelity is meaningful
                 ids_a = ids_b
+            if len(set(ids_a)) != len(ids_a):
+                # the first answer listed a transaction twice (reported then, C20-cache-order-dup); what was stored is
+                # each transaction once
+                seen_a = set()
+                ids_a = [x for x in ids_a if not (x in seen_a or seen_a.add(x))]
             # The known same-block defects all come from one thing: the cache lists an address's transactions by
             # (block_height, cache index).  A deviation is attributed to them only if the served list is what that
             # ordering gives over the rows the cache holds; anything else is a different violation.
